@@ -367,6 +367,36 @@ func runC20(c *Ctx) {
 					out[t.String()] = true
 				}
 			}
+			// a name handed to a helper that builds the request / key list from its string parameter
+			for _, in := range instrsIn(fn, func(in ssa.Instruction) bool { _, isCall := in.(ssa.CallInstruction); return isCall }) {
+				cs := in.(ssa.CallInstruction)
+				g := cs.Common().StaticCallee()
+				if g == nil || len(g.Blocks) == 0 || !hasModPrefix(g) {
+					continue
+				}
+				for i, arg := range cs.Common().Args {
+					if bt, isB := arg.Type().Underlying().(*types.Basic); !isB || bt.Kind() != types.String || i >= len(g.Params) {
+						continue
+					}
+					if _, isC := arg.(*ssa.Const); isC {
+						continue
+					}
+					stored := false
+					for _, gi := range instrsIn(g, func(x ssa.Instruction) bool { st, isSt := x.(*ssa.Store); return isSt && st.Val == ssa.Value(g.Params[i]) }) {
+						_ = gi
+						stored = true
+					}
+					if !stored {
+						continue
+					}
+					t := termOf(arg)
+					if t.Op == "field" && t.Args[0].Op == "field" {
+						out[t.Args[0].Name+"."+t.Name] = true
+					} else {
+						out[t.String()] = true
+					}
+				}
+			}
 			return out
 		}
 		a, b := src(mp, ""), src(ex, "")
